@@ -131,7 +131,8 @@ def stored(it):
 def check_add_candle(repo, rep):
     rid = "C20-R2"
     rep.rule(rid, "CandlesState.add_candle interpreted on the repository's DynamicNumpyArray for (new timestamp vs stored): empty "
-                  "-> append; newer -> append; equal to last -> replace last; equal to an older stored one -> replace it in place; "
+                  "-> append; newer -> append; equal to last -> replace last; equal to an older stored one -> replace it in place (stores of 2..26 "
+                  "candles, every look-back position incl. the second candle; an unknown older timestamp is ignored without raising); "
                   "never a second candle with a stored timestamp; timestamps stay strictly increasing")
     t0 = 1_600_000_000_000 // MIN * MIN
     cases = [("empty", 0, 0), ("newer", 3, 3), ("newer-gap", 3, 5), ("same-as-last", 3, 2), ("older-stored-1", 3, 1), ("older-stored-0", 3, 0)]
@@ -283,7 +284,7 @@ CLAIM = {
             "with symbolic candle values: one candle per minute, strictly increasing timestamps, provided candles unchanged, flat "
             "zero-volume fills at the previous close / first open; a trace rule shows every loop iteration appends once and advances "
             "the clock by 60000 once, which extends the result to any length. add_candle and add_multiple_1m_candles are interpreted "
-            "on /repo's own DynamicNumpyArray for the empty / newer / same / older-stored cases: append vs replace-in-place, no "
-            "duplicate timestamps, order preserved. The spacing validation in research.backtest precedes the simulator for every candle set.",
+            "on /repo's own DynamicNumpyArray for the empty / newer / same / older-stored / older-unknown cases on stores of 2..26 "
+            "candles (every look-back position): append vs replace-in-place vs ignore, no duplicate timestamps, order preserved. The spacing validation in research.backtest precedes the simulator for every candle set.",
     "note": "Trusted: interpreter semantics incl. numpy table model; pydash.find modelled as first match.",
 }
